@@ -40,6 +40,13 @@ def cross_backend(pid, tier, seed, workdir, stats):
                             + "\n".join(ops[:400]) + "\n", True)
 
 
+def serde_zst(pid, tier, seed, workdir, stats):
+    """C20 on zero-sized element types: the real Deserialize impls fed empty streams with lying size hints,
+    compared with the model's reservation (cautious -> capacity_to_buckets -> layout), both builds."""
+    for b in ("sse2", "portable"):
+        core.correspond(pid, tier, b, ["genpure", gen_seed(seed, 2), "serde"], workdir, stats)
+
+
 def c16_regen(pid, tier, seed, workdir, stats):
     """T1 for C16: regenerate the compiler-derived marker/method tables from /repo (rustdoc JSON)."""
     tr = os.path.join(core.VERIF, "translate", "rustdoc2lean.py")
@@ -76,6 +83,34 @@ def c16_corpus(pid, tier, seed, workdir, stats):
         raise Violation("C16: rustc accepts a program that must be rejected (or vice versa): %s expected %s got %s" % (u.get("file"), u.get("expected"), u.get("got")), text, True)
 
 
+def c16_borrow_search(pid, tier, seed, workdir, stats):
+    """Third tie and failing-input search for the lifetime theorems: for EVERY public method that returns a
+    borrow (all 67 types) generic obligation programs are synthesised from the rustdoc JSON of /repo (receiver
+    passed in as a parameter: reborrow-while-alive, two live results, escape to 'static) and compiled by rustc.
+    A program that must be rejected by the rule (result tied to the receiver borrow) and is accepted is a
+    concrete failing input."""
+    summ = os.path.join(workdir, "c16-search.json")
+    rc, log = core.sh(["python3", os.path.join(core.VERIF, "translate", "c16_search.py"), "--repo", core.REPO, "--out", summ,
+                       "--target-dir", os.path.join(core.CACHE, "c16-target"), "--all"], timeout=3600)
+    if not os.path.exists(summ):
+        raise Violation("C16: borrow-obligation synthesis could not run (build of /repo failed?)", "# " + log[-2500:].replace("\n", "\n# ") + "\n", False)
+    j = json.load(open(summ))
+    stats["evaluations"] += j.get("programs", 0)
+    stats["batches"].append(dict(backend="rustc", gen="c16 synthesised borrow obligations (%d methods)" % j.get("methods_with_programs", 0), lines=j.get("programs", 0)))
+    bad = list(j.get("accepted_but_must_reject", [])) + [m for m in j.get("mismatches", []) if m not in j.get("accepted_but_must_reject", [])] + list(j.get("suspicious", []))
+    if bad:
+        b = bad[0]
+        text = "# %d synthesised borrow obligation(s) got the wrong verdict from rustc\n" % len(bad)
+        for x in bad[:10]:
+            text += "# %s::%s [%s] rule=%s expected=%s got=%s\n" % (x.get("type"), x.get("method"), x.get("kind"), x.get("rule"), x.get("expected"), x.get("got"))
+        text += "# ---- first program: rustc accepts it although the rule says the borrow must conflict (compile against the rlib of /repo) ----\n"
+        text += b.get("program", "") + "\n"
+        accepted = any((x.get("got") in ("ok", "accepted", None)) or x in j.get("accepted_but_must_reject", []) or x in j.get("suspicious", []) for x in bad)
+        raise Violation("C16: rustc accepts a borrow that must conflict: %s::%s (%s)" % (b.get("type"), b.get("method"), b.get("rule") or b.get("kind")), text, accepted)
+    if j.get("not_synthesised"):
+        stats["notes"].append("C16: %d method(s) could not be rendered as obligation programs: %s" % (len(j["not_synthesised"]), [(x.get("type"), x.get("method")) for x in j["not_synthesised"]][:5]))
+
+
 # Scenario batches: (profile, count_quick, count_thorough). Profiles are defined in harness/src/main.rs.
 MAP_CORE = [("grow", 150, 4000), ("churn", 250, 8000), ("saturate", 120, 4000), ("mixed", 400, 12000)]
 
@@ -94,7 +129,7 @@ PROPS = {
     ),
     "C16": dict(
         module="Hb.Props.C16",
-        ties=[("custom", c16_regen), ("custom", c16_corpus)],
+        ties=[("custom", c16_regen), ("custom", c16_corpus), ("custom", c16_borrow_search)],
         backends=[],
         pre_ties=True,
         design="§7 C16",
@@ -104,7 +139,10 @@ PROPS = {
              "+kernel over the finite tables) state that every impl carries the bound the hand-written requirement table "
              "demands, that tables cover each other, and that no returned borrow is untied. The quantifier over instantiations "
              "is discharged by rustc on generic obligations: 983 generated programs (missing-bound, variance-coercion, "
-             "borrow-across-mutation; each reject paired with an accepting twin) must get the expected verdict.",
+             "borrow-across-mutation; each reject paired with an accepting twin) must get the expected verdict; in addition, for every "
+             "one of the 138 borrow-returning methods of all public types, generic borrow obligations (reborrow while the result is "
+             "alive, two live results, escape to 'static) are synthesised from the current rustdoc JSON and must be rejected/accepted "
+             "as the rule says (317 programs).",
         note="Trusted: rustc's trait solver/borrow checker and rustdoc's rendering of synthesised impls; the requirement table "
              "C16Req.lean (specification, written from the struct definitions); Lean kernel (axioms: none or propext). Variance "
              "is decided only by the rustc corpus (rustdoc JSON has no variance). One recorded waiver (ParDrain: Send without a "
@@ -215,7 +253,12 @@ PROPS = {
               ("scen", "panic-entry", 5, 120), ("scen", "entry", 150, 4000), ("scen", "panic-table", 4, 100), ("scen", "panic-set", 3, 80)],
         backends=["sse2", "portable"],
         design="§7 C04, §10 F1",
-        text="Lean theorems for every environment, table state and panic position: a hasher panic inside resize leaves the "
+        text="Lean theorems for every environment and every history with panics at ANY callback invocation: after every call, "
+             "returned or unwound, of the whole modelled API the collection is valid with len = #stored (valid_after_any_panic); "
+             "no key/value object is dropped twice, returned twice, or dropped/returned while still stored (no_double_drop, from "
+             "the ledger of histories with panics: stored + dropped + returned + lost = inserted, lost only after a destructor "
+             "panic or handed out by an unwound extract_if/drain; frees matched, a block leaks only when a Drain's Drop unwinds "
+             "— machine-checked witness); and for the two guarded growth paths: a hasher panic inside resize leaves the "
              "table unchanged and frees the new block; a hasher panic inside in-place rehash leaves a table satisfying the "
              "structural invariant with len = #elements and every element kept or dropped exactly once; neither path can "
              "fault. Machine-checked witness of defect F1 (guard as shipped in 0.15.2) and of the repaired guard. Tie: "
@@ -418,7 +461,7 @@ PROPS = {
     ),
     "C20": dict(
         module="Hb.Props.C20",
-        ties=[("scen", "serde", 250, 8000), ("t1", {})],
+        ties=[("scen", "serde", 250, 8000), ("custom", serde_zst), ("t1", {})],
         backends=["sse2", "portable"],
         design="§7 C20",
         text="Lean theorems: reservation_bounded (for every claimed length: cautious <= 4096, hence <= 8192 buckets / capacity "
@@ -429,7 +472,8 @@ PROPS = {
              "by a hand-rolled Serializer and a scripted Deserializer (claimed lengths 0..usize::MAX incl. capacity_to_buckets "
              "boundaries, duplicates, failure at every key/value position) into HashMap/HashSet with the tape allocator; full "
              "state + allocator events compared with the model; direct oracles: last-wins reference, ownership ledger, capacity "
-             "bound before the first element; `cautious` regenerated from source (T1).",
+             "bound before the first element; zero-sized element types (HashSet<()>, HashMap<(),()>) through the real impls with "
+             "claimed lengths up to 2^24 against the model's reservation; `cautious` regenerated from source (T1).",
         note="Trusted: Lean kernel, axioms propext/Classical.choice/Quot.sound; harness (scripted serde front-end), hooks, protocol. "
              "Table-level statements are conditional on the call returning (lawful hasher, non-refusing allocator, non-panicking "
              "destructors); unwinding paths of the visitors are modelled but not proved. serde's own data formats are out of scope.",
